@@ -123,9 +123,13 @@ PROPS = {
                       "streaming and schema-aware streaming collectors (streaming_faithful_log, streaming_dynamic_faithful_log): after any sequence of Adds over a writer that "
                       "accepts every write, the samples in the writer followed by the pending ones are exactly the accepted samples, once each and in order - across every "
                       "automatic flush and every schema-change flush; streaming_writer_decodes_to_accepted: every chunk in the writer is DECODED by the reader model (C01's "
-                      "decode_payload) to exactly the samples it holds, so what is decodable from the writer plus the pending samples is exactly what was accepted.",
-        "level_note": "The dynamic (non-streaming) collector is a composition of batch collectors (one-step laws in C08); its whole-history behaviour, Reset/Resolve/Flush interleaved "
-                      "with Adds on the streaming collectors, wrapper stacking and the decode step for them (C01 proves it for the base collector) are covered by the "
+                      "decode_payload) to exactly the samples it holds, so what is decodable from the writer plus the pending samples is exactly what was accepted. "
+                      "WHOLE HISTORIES: batch_faithful_all_histories (Add, unreadable Add, Reset, SetMetadata, Resolve, Info in any order: the batch collector holds exactly the documents "
+                      "accepted since the last Reset and its chunk invariant - every chunk but the last full - holds throughout); streaming_faithful_all_histories and "
+                      "streaming_dynamic_faithful_all_histories (Props/C09.lean: Add, unreadable Add, Flush, Reset, SetMetadata, Resolve, Info in any order, under every script of "
+                      "write results: complete writes ++ pending = the documents accepted and not discarded by a Reset, once each and in order).",
+        "level_note": "The dynamic (non-streaming) collector is a composition of batch collectors (one-step laws in C08, Add histories in C08's dynamic_batches_have_one_schema); its "
+                      "histories with Reset/SetMetadata interleaved and wrapper stacking are covered by the "
                       "correspondence run, not by a composed theorem. The sampling collector depends on "
                       "the wall clock and is not modelled.",
         "assumptions": ["chunk size N >= 1"],
@@ -169,8 +173,11 @@ PROPS = {
                       "script of write results (ok / error without consuming / short count) and every sequence of Adds, the samples in the complete writes followed by the "
                       "pending ones are exactly the samples whose Add returned nil, once each and in order - a failing write discards nothing, a later successful flush "
                       "delivers the pending samples exactly once, an Add that returned an error added nothing; dynamic_faithful_under_any_write_faults: the same for the schema-aware "
-                      "streaming collector (failing schema-change flushes included).",
-        "level_note": "The fault theorems are about Add histories; explicit Flush/Reset calls between the Adds are checked by the oracle on every case of the fault stream. A short write leaves half a document in the byte log: recovery is stated over the "
+                      "streaming collector (failing schema-change flushes included). streaming_faithful_all_histories / streaming_dynamic_faithful_all_histories: the same invariant over "
+                      "whole histories - Add, unreadable Add, explicit Flush, Reset, SetMetadata, Resolve, Info in any order under every script of write results (a Reset discards what is "
+                      "pending and nothing that was written); successful_flush_delivers_everything: a flush that reports success leaves nothing pending, so once the writer accepts "
+                      "data again one successful flush makes every accepted sample durable.",
+        "level_note": "A short write leaves half a document in the byte log: recovery is stated over the "
                       "fully successful writes.",
         "assumptions": ["documents shorter than 2^31 bytes"],
     },
